@@ -153,14 +153,14 @@ def handle (st : DState) (req : Sexp) : DState × String :=
   | .list [.atom "build", wx, ox, .list (.atom "roots" :: rs), .list (.atom "imports" :: is), fuel] =>
     match DG.Build.world? wx, DG.Build.opts? ox, nats? rs, DG.Build.imports? is, nat? fuel with
     | some w, some o, some rs, some is, some fuel =>
-      match DG.Build.build w o rs is fuel with
+      match DG.Build.buildGraph w o rs is fuel with
       | some stf => (st, DG.Build.showSt stf)
       | none => (st, "OUT-OF-FUEL")
     | _, _, _, _, _ => (st, "bad-op")
   | .list [.atom "prune", wx, ox, .list (.atom "roots" :: rs), .list (.atom "imports" :: is), fuel] =>
     match DG.Build.world? wx, DG.Build.opts? ox, nats? rs, DG.Build.imports? is, nat? fuel with
     | some w, some o, some rs, some is, some fuel =>
-      match DG.Build.build w o rs is fuel with
+      match DG.Build.buildGraph w o rs is fuel with
       | some stf =>
         let (slots, reds) :=
           if o.kind.includeTypes then
